@@ -964,7 +964,7 @@ class Timeout:
 
 # ====================================================================== property module interface
 
-THEOREMS = []
+THEOREMS = ['Props.C05.' + t for t in ['addressing_agrees', 'reversed_key_row']]
 LEVEL_TEXT = ''
 LEVEL_NOTE = ''
 TECHNIQUE = 'Lean 4 proof over an executable model of the listing reader + differential correspondence with the real reader + independent tokenizer oracle'
